@@ -13,6 +13,14 @@ Domain restrictions enforced by construction (the property's quantifier):
     suffix); both only as *shadowing decoys*: the check asks for names below them and for
     completions after them, never analyses them,
   * never two module files of the same stem in one directory,
+  * *bare directories* (no __init__.py; empty or holding data files / stray .py files) are listed in
+    ``tree['bare']`` as ``[root index, relative dir]`` -- decoys only: at top level always next to a
+    REGULAR module/package of the same name in another root or in the standard library, so that
+    for importlib the name is that regular module whatever the order of the roots (PEP 420 makes a
+    namespace package of a bare directory only when nothing regular of that name is on the path);
+    now and then one level down inside a regular package, where importlib does see a namespace
+    package: the check's namespace filter takes those names out, they only have to do no harm.
+    An empty directory is the key ``'dir/'``,
   * at most MAX_FILES files per tree, packages nested to depth MAX_DEPTH.
 
 What the generator aims at: the same dotted name in different roots (module in one, package
@@ -201,7 +209,75 @@ def _gen_tree(rng, compiled=None):
     if rng.random() < 0.45:
         for _ in range(rng.choice((1, 1, 2))):
             _add_nonsource(rng, roots, compiled if compiled is not None else COMPILED)
-    return {'roots': roots}
+    bare = []
+    if rng.random() < 0.45:
+        for _ in range(rng.choice((1, 1, 2))):
+            _add_bare_dir(rng, roots, bare, compiled if compiled is not None else COMPILED)
+    tree = {'roots': roots}
+    if bare:
+        tree['bare'] = bare
+    return tree
+
+
+def _add_bare_dir(rng, roots, bare, compiled):
+    """a directory WITHOUT __init__.py named like a regular package/module that another root (or the
+    standard library) has: importlib skips it in favour of the regular one, before or after it."""
+    i = rng.randrange(len(roots))
+    here = _top_names(roots[i])
+    others = [j for j in range(len(roots)) if j != i]
+    r = rng.random()
+    if r < 0.1:
+        # one level down inside a regular package of this root (a PEP 420 portion for importlib)
+        pkdirs = sorted({rel.rsplit('/', 1)[0] for rel in roots[i]
+                         if rel.endswith('/__init__.py') and rel.count('/') < MAX_DEPTH - 1
+                         and not any(rel.startswith(b + '/') for k, b in bare if k == i)})
+        if not pkdirs:
+            return
+        d = rng.choice(pkdirs)
+        stems = {rel[len(d) + 1:].split('/')[0].split('.')[0] for rel in roots[i] if rel.startswith(d + '/')}
+        cands = [n for n in SUB_POOL + ['data'] if n not in stems]
+        if not cands:
+            return
+        name = d + '/' + rng.choice(cands)
+        roots[i][name + '/' + rng.choice(('notes.txt', 'x.py'))] = 'X = 1\n'
+        bare.append([i, name])
+        return
+    pk = sorted({rel.split('/')[0] for j in others for rel in roots[j]
+                 if rel.count('/') == 1 and rel.endswith('/__init__.py')} - here)
+    mods = sorted({rel[:-3] for j in others for rel in roots[j] if '/' not in rel and rel.endswith('.py')} - here)
+    std = [n for n in sorted(STDLIB_PKGS) + list(compiled) + STDLIB_MODS if n not in here]
+    if pk and r < 0.65:
+        name, kids = rng.choice(pk), None
+        kids = sorted({rel.split('/')[1].split('.')[0] for j in others for rel in roots[j]
+                       if rel.startswith(name + '/') and rel.count('/') >= 1} - {'__init__'})
+        if not kids:
+            # give the regular package something to find below it
+            j = next(j for j in others if name + '/__init__.py' in roots[j])
+            roots[j][name + '/inner.py'] = 'NAME = %r\nattr_inner = 1\n' % (name + '.inner')
+            kids = ['inner']
+    elif mods and r < 0.75:
+        name, kids = rng.choice(mods), []
+    elif std:
+        name = rng.choice(std)
+        kids = [c.split('.')[0] for c in STDLIB_PKGS.get(name, [])]
+    else:
+        return
+    c = rng.random()
+    if c < 0.25:
+        roots[i][name + '/'] = ''                                  # empty directory
+    elif c < 0.55:
+        roots[i][name + '/notes.txt'] = 'not python\n'
+        if rng.random() < 0.4:
+            roots[i][name + '/data/table.csv'] = 'a,b\n'
+    else:
+        # stray .py files, one of them named like a real child of the regular package
+        if kids and rng.random() < 0.7:
+            roots[i][name + '/' + rng.choice(kids) + '.py'] = 'NAME = "stray"\n'
+        if not kids or rng.random() < 0.6:
+            roots[i][name + '/helper.py'] = 'NAME = "stray"\n'
+        if rng.random() < 0.3:
+            roots[i][name + '/notes.txt'] = 'not python\n'
+    bare.append([i, name])
 
 
 def _top_names(files):
@@ -258,14 +334,21 @@ def _add_nonsource(rng, roots, compiled):
 def check_domain(tree):
     """the generator's own sanity check (AssertionError = generator bug, never a supp alarm)."""
     total = 0
-    for files in tree['roots']:
+    known_std = set(STDLIB_PKGS) | set(COMPILED) | set(STDLIB_MODS)
+    for idx, files in enumerate(tree['roots']):
         total += len(files)
         dirs = set()
         stems = set()
+        bares = [b for k, b in tree.get('bare', []) if k == idx]
         for rel in files:
-            assert rel.endswith(SUFFIXES) and not rel.startswith('/') and '..' not in rel, rel
-            parts = rel.split('/')
+            assert not rel.startswith('/') and '..' not in rel, rel
+            parts = rel.rstrip('/').split('/')
             assert len(parts) <= MAX_DEPTH + 1, rel
+            if under_bare(tree, idx, rel):
+                # anything but an __init__ module may lie in a bare directory
+                assert not any(x.split('.')[0] == '__init__' for x in parts), rel
+                continue
+            assert rel.endswith(SUFFIXES), rel
             for i in range(1, len(parts)):
                 dirs.add('/'.join(parts[:i]))
             stem = strip_suffix(rel)
@@ -275,7 +358,25 @@ def check_domain(tree):
         for d in dirs:
             assert d + '/__init__.py' in files, ('namespace dir', d)
             assert d not in stems, ('module next to package', d)
+        for b in bares:
+            assert b not in dirs and b not in stems, ('bare directory next to a module/package of its name', b)
+            assert any(under_bare(tree, idx, rel) for rel in files), ('bare directory without an entry', b)
+            if '/' in b:
+                assert b.rsplit('/', 1)[0] in dirs, ('bare directory not inside a regular package', b)
+            else:
+                # something regular of that name elsewhere: never a top-level namespace package
+                elsewhere = any(b + sfx in f or b + '/__init__.py' in f
+                                for k, f in enumerate(tree['roots']) if k != idx for sfx in SUFFIXES)
+                assert elsewhere or b in known_std, ('top-level bare directory would be a namespace package', b)
     assert 0 < total <= MAX_FILES, total
+
+
+def under_bare(tree, idx, rel):
+    """is the entry ``rel`` of root ``idx`` (a file, or 'dir/' for an empty directory) inside a bare directory?"""
+    for k, b in tree.get('bare', ()):
+        if k == idx and (rel.startswith(b + '/')):
+            return True
+    return False
 
 
 SUFFIXES = ('.py', '.pyc', '.@so')
@@ -300,6 +401,9 @@ def write_tree(tree, base):
         rd = os.path.join(base, 'r%d' % i)
         os.makedirs(rd)
         for rel, text in sorted(files.items()):
+            if rel.endswith('/'):
+                os.makedirs(os.path.join(rd, *rel.rstrip('/').split('/')), exist_ok=True)
+                continue
             fn = os.path.join(rd, *rel.split('/'))
             os.makedirs(os.path.dirname(fn), exist_ok=True)
             if rel.endswith('.pyc'):
@@ -359,6 +463,12 @@ def file_backed(tree):
     out = {}
     for i, files in enumerate(tree['roots']):
         for rel in sorted(files):
+            if under_bare(tree, i, rel):
+                # stray .py files of a bare directory: their would-be names are asked for (importlib does
+                # not find them there), data files and empty directories have no name
+                if rel.endswith('.py'):
+                    out.setdefault(dotted_of(rel)[0], []).append((i, rel, 'under-bare-directory'))
+                continue
             name, kind = dotted_of(rel)
             out.setdefault(name, []).append((i, rel, kind))
     return out
